@@ -148,7 +148,8 @@ def _desc_item(x):
 class ForkRNG(object):
     """Stands in for the `random` module."""
 
-    def __init__(self, script=(), max_clocks=10 ** 9, delays=DELAYS, detect_restart=True, max_forks=None):
+    def __init__(self, script=(), max_clocks=10 ** 9, delays=DELAYS, detect_restart=True, max_forks=None, prefer_true=False):
+        self.prefer_true = prefer_true
         self.script = list(script)
         self.trace = []       # dicts: kind, desc, probs, chosen, nclock
         self.clocks = []      # dicts: rate, pos (number of forks before it), delay
@@ -176,7 +177,9 @@ class ForkRNG(object):
                 raise ScriptMismatch('script entry %d out of range at fork %d %r' % (c, i, desc))
         else:
             c = None
-            for k, p in enumerate(probs):
+            if self.prefer_true and desc[0] == 'cmp' and probs[1] >= EPS:
+                c = 1
+            for k, p in (enumerate(probs) if c is None else ()):
                 if p >= EPS:
                     c = k
                     break
